@@ -181,8 +181,11 @@ func (t *domainRoutingTracker) syncOwnerIf(
 	t.mu.Lock()
 	defer t.mu.Unlock()
 
-	if guard != nil && !guard() {
-		return nil
+	if guard != nil {
+		if !guard() {
+			return nil
+		}
+		verifYield("drt-guard-passed")
 	}
 
 	oldSnapshot := t.owners[ownerKey]
